@@ -5,6 +5,7 @@ from .. import catalogue, shapes, sym
 from ..shapes import Bounds, default_of
 from ..spec import specjson as sj, specmsg as sm, specwire as sw
 
+WARMUP = True  # a concrete first use of the harness before each path (vf/explore.py: WarmEnv)
 PROPERTY = "C07"
 B1 = Bounds(rep=1, mapn=1, strlen=1, depth=1, narrow=True)
 
